@@ -378,7 +378,7 @@ def mon_spec(md_lib, cfg, ops, impl, stats, r=None):
     segs.append((start, cur))
     md = {"parents": [None] * 16, "root": md_lib}
     def _qplain(op):
-        return _plain(op) or (op[0] == "enqueue" and op[1] != 0) or (op[0] == "drain" and not op[2])
+        return _plain(op) or (op[0] == "enqueue" and op[1] != 0) or (op[0] in ("drain", "drain1") and not op[2])
     for start, seg in segs:
         queued = False
         if not seg:
